@@ -688,9 +688,12 @@ private:
 
       _tasks.emplace(std::move(f));
 
-      // Check if we should spawn a new thread
-      if (_threads.size() < _maxSize)
+      // Check if we should spawn a new thread. Spawns decided by other
+      // submitters but not yet registered in _threads are counted too, so
+      // concurrent submitters can never exceed _maxSize together.
+      if (_threads.size() + _pendingSpawns < _maxSize)
       {
+        ++_pendingSpawns;
         shouldSpawn = true;
       }
     } // Release mutex here
@@ -698,7 +701,7 @@ private:
     // Spawn outside of the lock to avoid deadlock
     if (shouldSpawn)
     {
-      spawnWorker();
+      spawnWorker(true);
     }
 
     _condition.notify_one();
@@ -727,9 +730,12 @@ private:
 
       _tasks.emplace(std::move(f));
 
-      // Check if we should spawn a new thread
-      if (_threads.size() < _maxSize)
+      // Check if we should spawn a new thread. Spawns decided by other
+      // submitters but not yet registered in _threads are counted too, so
+      // concurrent submitters can never exceed _maxSize together.
+      if (_threads.size() + _pendingSpawns < _maxSize)
       {
+        ++_pendingSpawns;
         shouldSpawn = true;
       }
     } // Release mutex here
@@ -737,14 +743,14 @@ private:
     // Spawn outside of the lock to avoid deadlock
     if (shouldSpawn)
     {
-      spawnWorker();
+      spawnWorker(true);
     }
 
     _condition.notify_one();
     return true;
   }
 
-  void spawnWorker()
+  void spawnWorker(bool reserved = false)
   {
     std::thread t(
       [this]()
@@ -929,6 +935,10 @@ private:
     std::lock_guard<std::mutex> lock(_mutex);
     auto threadId = t.get_id();
     _threads.emplace(threadId, std::move(t));
+    if (reserved)
+    {
+      --_pendingSpawns; // slot reserved by enqueue is now visible in _threads
+    }
 
     // NOTE: Exit acknowledgment flag is initialized INSIDE the lambda (at thread start)
     // to avoid race condition. Do NOT initialize it here!
@@ -1144,6 +1154,7 @@ private:
 private:
   std::unordered_map<std::thread::id, std::thread> _threads;
   std::queue<std::function<void()>> _tasks;
+  std::size_t _pendingSpawns{0}; // spawns decided under _mutex, thread not yet in _threads
   mutable std::mutex _mutex;
   std::condition_variable _condition;
 
